@@ -31,6 +31,7 @@ class Monitor(object):
         self.has_batch = any("batch" in c for c in cfg["classes"].values())
 
     def violate(self, clause, detail):
+        detail["exact_mode"] = bool(self.cfg.get("exact"))
         self.hub.violate("C10", clause, detail)
 
     def on_sample(self, menu, t, ind, v):
@@ -173,6 +174,13 @@ def focused(tier):
                     "B": klass([None], [{"values": [1.0, 0.25], "by_class": {"A": [2.0, 0.5], "B": [1.0, 0.25]}}], route=matrix([[0.5]]))},
                    K=2, T=8.0, D=4 if tier == "quick" else 6, features=["state_dependent"]))
     out.append(tandem("tandem blocking", fam, c=(1, 1), caps=(None, 0), K=K, features=["blocking"]))
+    # a service time sampled at one node must not survive into the next visit (the customer WAITS at node 2)
+    for nm, c in (("inf", "inf"), ("sched", {"sched": {"numbers": [1, 0, 2], "ends": [1.5, 2.5, 4.0], "preempt": False}}),
+                  ("slotted", {"slotted": {"slots": [1.0, 1.5, 3.0], "sizes": [2, 2, 1], "capacitated": False, "preempt": False}}),
+                  ("ps", "inf"), ("c=2", 2)):
+        nk = ({"ps": True} if nm == "ps" else None, None)
+        out.append(tandem("%s -> c=1 with waiting" % nm, fam, c=(c, 1), caps=(None, None), K=K, T=12.0, arr=[0.5, 0.25],
+                          srv=[[1.0, 0.5], [2.0, 0.75]], nodekw=nk, D=5 if tier == "quick" else 8, features=[nm, "tandem"]))
     from .c11 import ties_and_disciplines
     out += [c for c in ties_and_disciplines(tier, fam="F-samples-preempt") if "tie" in c["name"] or "sched" in c["name"]]
     for opt in ("resume", "restart", "resample"):
